@@ -133,7 +133,7 @@ def processSample (law : Law) (load : Vec) : Nat → State → State × HPoint
         else
           -- case c) ii.: closed hysteresis (p0, p1)
           let st := { st with recs := st.recs ++ [closedHyst st p0 p1], res := rest, iz := st.iz - 2 }
-          if (rep p0.load).natAbs < st.loadMax ∧ (rep p1.load).natAbs < st.loadMax then
+          if st.iz ≥ st.ir then
             processSample law load fuel st
           else
             let p := primary law load
